@@ -22,7 +22,7 @@
    written inside one) is the hypothesis of c13_calls_are_finite_and_atomic,
    instantiated in Examples.v (gen_calls_finite_atomic). *)
 From Coq Require Import ZArith List Bool Permutation String.
-From Verif Require Import C13.Model C13.Proofs C13.Threads C13.World.
+From Verif Require Import C13.Model C13.Proofs C13.Threads C13.World C13.Reentry.
 Import ListNotations.
 Open Scope Z_scope.
 
@@ -480,3 +480,58 @@ Theorem c13_lock_machine_terminates :
       (code_left N m = 0%nat -> forall i, m_code m i = []).
 Proof. exact lock_machine_terminates. Qed.
 Print Assumptions c13_lock_machine_terminates.
+
+(* ---------------------------------------------------------------------- *)
+(* Callbacks that call back ("for any history": the digesters and on_toxic
+   are the CALLER's code, and digest() runs them outside the lock, its items
+   already off the queue - a callback may call the lysosome it was called
+   from: read it, or make a call of its own that runs to completion before the
+   callback returns).  [xrun acts cfg ops] is the (configuration, state) after
+   a history [ops] over  XR (any step of a reconfigured, interleaved history)
+   |  XDigest k  (digest(k) by the program, in which the digester / on_toxic
+   of every item with an entry (id, call) in [acts] makes that call - digest,
+   an ingest of any kind, autophagy, ... - while digest() is inside it), Model.v
+   Part 1f.  [acts] and [ops] are arbitrary. *)
+
+(* A re-entrant history IS an interleaved history: the calls the callbacks
+   make are calls that run between two digester calls of the digest() in
+   progress.  [xflatten] is that history. *)
+Theorem c13_reentrant_is_interleaved :
+  forall acts cfg ops, xrun acts cfg ops = rrun cfg (xflatten acts cfg cinit ops).
+Proof. exact reentrant_is_interleaved. Qed.
+Print Assumptions c13_reentrant_is_interleaved.
+
+(* So after every history with callbacks that call back: the queue bound,
+   conservation (every ingested item exactly one of queued / in flight / one
+   fate; the counters are the ghost counts), every digestion error listed in
+   exactly one DigestResult, every DigestResult accounting for exactly the
+   items its call took - the nested calls have results of their own -, nothing
+   of a sensitive item recycled and on_toxic at most once per item, exactly
+   once for a digested / emergency-processed one. *)
+Theorem c13_reentrant_statements :
+  forall acts cfg ops,
+    let cs := snd (xrun acts cfg ops) in
+    (2 <= max_queue cfg -> Z.of_nat (List.length (queue (c_base cs))) <= max_queue cfg) /\
+    overlap_conservation_cs cfg cs /\
+    reported_once_cs cs /\
+    results_cs cfg cs /\
+    overlap_toxic_cs cfg cs.
+Proof. exact reentrant_statements. Qed.
+Print Assumptions c13_reentrant_statements.
+
+(* The re-entrant digest(k) call RETURNS, whatever its callbacks call: from
+   any state in which the calling thread is not already inside a digest() of
+   its own, after exactly one digester call per item taken - and the calls the
+   callbacks made in between - the call is no longer in progress, the calls of
+   other threads that were in progress still are, the configuration is the
+   same, and a DigestResult for exactly the items the call took off the queue
+   has been returned (the results of the nested calls, [more], besides it). *)
+Theorem c13_reentrant_digest_returns :
+  forall acts cfg cs k,
+    find_pass self_label (c_open cs) = None ->
+    let st := xstep acts (cfg, cs) (XDigest k) in
+    fst st = cfg /\
+    c_open (snd st) = c_open cs /\
+    exists r more, c_done (snd st) = (to_process k (queue (c_base cs)), r) :: more ++ c_done cs.
+Proof. exact reentrant_digest_returns. Qed.
+Print Assumptions c13_reentrant_digest_returns.
